@@ -99,6 +99,17 @@ func checkValidity(
 	if err := header.ValidateBasic(); err != nil {
 		return err
 	}
+	// The revision number of a header is supplied by the relayer and is not covered by the block hash. Consensus
+	// states are filed under the full height, and RestrictChain and the pruning step look them up under it: a
+	// header of another revision than the client's would leave states no later step finds (or finds instead of
+	// the right ones).
+	if header.Height.RevisionNumber != clientState.Header.Height.RevisionNumber {
+		return sdkerrors.Wrapf(
+			clienttypes.ErrInvalidHeader,
+			"header revision number %d differs from the client's revision number %d",
+			header.Height.RevisionNumber, clientState.Header.Height.RevisionNumber,
+		)
+	}
 	if err := verifyHeader(ctx, cdc, store, clientState, header); err != nil {
 		return err
 	}
